@@ -1294,26 +1294,69 @@ class Summaries:
             return v.c * la + (ONE - v.c) * lb, ta or tb
         raise ex_undecided("heapless Vec expected, got %r" % (v,))
 
+    # content of a Vec: an uninterpreted sequence term - seq_empty, seq_push(content, item), seq_concat(content,
+    # content) - or an opaque symbol for an unknown content. Only rules that compare contents look at it (C03).
+    @staticmethod
+    def seq_ty(ty):
+        ety = ty["args"][0] if ty and ty.get("k") == "adt" and ty.get("args") else None
+        return {"k": "slice", "ty": ety}
+
+    def hv_content_of(self, ctx, v):
+        if isinstance(v, Agg) and v.name == self.HV:
+            if len(v.fields) > 1:
+                return v.fields[1]
+            return SymV(self.seq_ty(v.ty), ctx.ex.fresh("content"))
+        if isinstance(v, SymV):
+            return SymV(self.seq_ty(v.ty), "content(%s)" % v.name)
+        if isinstance(v, ITE):
+            return mk_ite(v.c, self.hv_content_of(ctx, v.a), self.hv_content_of(ctx, v.b))
+        return SymV({"k": "slice", "ty": None}, ctx.ex.fresh("content"))
+
     def hv_get(self, ctx, st, p):
-        """(len poly, type) of the heapless Vec behind pointer p (model: Agg [len])"""
+        """(len poly, type) of the heapless Vec behind pointer p (model: Agg [len, content])"""
         v = ctx.ex.read(st, p.root, p.path, p.pty)
         ln, ty = self.hv_len_of(ctx, st, v)
         if ty is None:
             ty = p.pty
         return ln, ty
 
-    def hv_set(self, ctx, st, p, ln, ty):
-        ctx.ex.write(st, p.root, p.path, Agg("adt", self.HV, 0, [IntV(ctx.ex.pbits, False, p=ln)], ty), p.pty)
+    def hv_content(self, ctx, st, p):
+        return self.hv_content_of(ctx, ctx.ex.read(st, p.root, p.path, p.pty))
+
+    def hv_mk(self, ctx, ln, ty, content):
+        return Agg("adt", self.HV, 0, [IntV(ctx.ex.pbits, False, p=ln), content], ty)
+
+    def hv_set(self, ctx, st, p, ln, ty, content):
+        ctx.ex.write(st, p.root, p.path, self.hv_mk(ctx, ln, ty, content), p.pty)
+
+    def s_hv_queries(self, ctx, st):
+        """heapless::vec::Vec::is_full | heapless::vec::Vec::is_empty | heapless::vec::Vec::len | heapless::vec::Vec::capacity"""
+        p = ctx.args[0]
+        if not isinstance(p, Ptr):
+            return None
+        ln, ty = self.hv_get(ctx, st, p)
+        cap = self.hv_cap(ctx, ty)
+        nm = ctx.callee["name"]
+        if nm == "len":
+            return [(st, IntV(ctx.ex.pbits, False, p=ln))]
+        if nm == "is_empty":
+            return [(st, BoolV(eq0(ln, st.facts)))]
+        if cap is None:
+            return None
+        if nm == "capacity":
+            return [(st, IntV(ctx.ex.pbits, False, p=cap))]
+        return [(st, BoolV(ge0(ln - cap, st.facts)))]
 
     def s_hv_new(self, ctx, st):
         """heapless::vec::Vec::new"""
-        return [(st, Agg("adt", self.HV, 0, [IntV(ctx.ex.pbits, False, p=ZERO)], ctx.dest_ty))]
+        ty = ctx.ex.normalize(ctx.dest_ty) if ctx.dest_ty is not None else None
+        return [(st, self.hv_mk(ctx, ZERO, ty, Term("seq_empty", [], self.seq_ty(ty))))]
 
     def s_hv_clear(self, ctx, st):
         """heapless::vec::Vec::clear"""
         p = ctx.args[0]
         ln, ty = self.hv_get(ctx, st, p)
-        self.hv_set(ctx, st, p, ZERO, ty)
+        self.hv_set(ctx, st, p, ZERO, ty, Term("seq_empty", [], self.seq_ty(ty)))
         return [(st, UNITV)]
 
     def s_hv_push(self, ctx, st):
@@ -1323,8 +1366,9 @@ class Summaries:
         cap = self.hv_cap(ctx, ty)
         if cap is None:
             return None
+        old = self.hv_content(ctx, st, p)
         room = ge0(cap - ln - 1, st.facts)
-        self.hv_set(ctx, st, p, ln + room, ty)
+        self.hv_set(ctx, st, p, ln + room, ty, mk_ite(room, Term("seq_push", [old, x], self.seq_ty(ty)), old))
         ok = Agg("adt", RESULT, 0, [UNITV])
         err = Agg("adt", RESULT, 1, [x])
         return [(st, mk_ite(room, ok, err))]
@@ -1337,8 +1381,15 @@ class Summaries:
         k = self.ptr_len(ctx, st, sl)
         if cap is None or k is None:
             return None
+        old = self.hv_content(ctx, st, p)
+        try:
+            other = ctx.ex.read(st, sl.root, sl.path, sl.pty)
+        except Exception:
+            other = None
+        if not isinstance(other, (Term, SymV, ITE)) or isinstance(other, SymV) and other.ty.get("k") != "slice":
+            other = SymV(self.seq_ty(ty), ctx.ex.fresh("content"))
         room = ge0(cap - ln - k, st.facts)
-        self.hv_set(ctx, st, p, ln + room * k, ty)
+        self.hv_set(ctx, st, p, ln + room * k, ty, mk_ite(room, Term("seq_concat", [old, other], self.seq_ty(ty)), old))
         ok = Agg("adt", RESULT, 0, [UNITV])
         err = Agg("adt", RESULT, 1, [UNITV])
         return [(st, mk_ite(room, ok, err))]
@@ -1351,13 +1402,21 @@ class Summaries:
         p = ctx.args[0]
         ln, ty = self.hv_get(ctx, st, p)
         ety = ty["args"][0] if ty else None
+        # make sure the content lives at field 1 of the stored value, so that the slice pointer reads it
+        cur = ctx.ex.read(st, p.root, p.path, p.pty)
+        if not (isinstance(cur, Agg) and cur.name == self.HV and len(cur.fields) > 1):
+            self.hv_set(ctx, st, p, ln, ty, self.hv_content_of(ctx, cur))
+        mut = ctx.callee["name"] == "deref_mut"
+        if mut:
+            # handing out &mut [T]: the content may be rewritten behind our back
+            self.hv_set(ctx, st, p, ln, ty, SymV(self.seq_ty(ty), ctx.ex.fresh("content")))
         return [(st, Ptr(p.root, p.path + (("f", 1, None),), IntV(ctx.ex.pbits, False, p=ln), {"k": "slice", "ty": ety}, False))]
 
     def s_hv_clone(self, ctx, st):
         """<heapless::vec::Vec as core::clone::Clone>::clone"""
         p = ctx.args[0]
         ln, ty = self.hv_get(ctx, st, p)
-        return [(st, Agg("adt", self.HV, 0, [IntV(ctx.ex.pbits, False, p=ln)], ty))]
+        return [(st, self.hv_mk(ctx, ln, ty, self.hv_content(ctx, st, p)))]
 
     def default_of(self, ctx, t):
         ib = ctx.ex.ibits(t)
@@ -1366,7 +1425,7 @@ class Summaries:
         if t.get("k") == "bool":
             return BoolV(ZERO)
         if t.get("k") == "adt" and t.get("def") == self.HV:
-            return Agg("adt", self.HV, 0, [IntV(ctx.ex.pbits, False, p=ZERO)], t)
+            return self.hv_mk(ctx, ZERO, t, Term("seq_empty", [], self.seq_ty(t)))
         if t.get("k") == "adt" and t.get("def") == OPTION:
             return Agg("adt", OPTION, 0, [], t)
         return None
